@@ -1415,26 +1415,26 @@ def destructor_walks(ctx):
             ctx.check(bad is None, rid, pat + "#list-walk", "lists of 1..4 nodes: every node released exactly once, no link read after release" +
                       (", items drained before release" if drains else ""),
                       "%s: nodes / elements are leaked, freed twice or read after free when the queue is destroyed" % bad, fn.where(), fn=fn)
-    # bounded k-FIFO: every slot of the ring is visited
-    pat = X + "kirsch_bounded_kfifo_queue::~kirsch_bounded_kfifo_queue"
-    for fn in flow._shapes(ctx, pat):
-        dels = flow.find(fn, call("delete_value"))
-        bad = None
-        try:
-            from .evalx import run_until
-            for size in (1, 2, 5):
-                seen = []
+    # bounded k-FIFO: every slot of the ring is visited; unbounded k-FIFO: every slot of a segment
+    from .evalx import run_until
+    for pat, bound in ((X + "kirsch_bounded_kfifo_queue::~kirsch_bounded_kfifo_queue", "_queue_size"), (X + "kirsch_kfifo_queue::segment::delete_remaining_items", "k")):
+        for fn in flow._shapes(ctx, pat):
+            dels = flow.find(fn, call("delete_value"))
+            bad = None
+            try:
+                for size in (1, 2, 5):
+                    seen = []
 
-                def on_event(f, e, env, seen=seen):
-                    if e in dels:
-                        idx = [evalx(f, x, env) for x in f.subtree(e) if f.nodes[x]["k"] in ("subscript", "index")]
-                        seen.append(env.get("i"))
-                env, stop = run_until(fn, {"field:_queue_size": size, "this._queue_size": size, "_queue_size": size}, lambda f, e: False, on_event=on_event)
-                if len(seen) != size or len(set(seen)) != size:
-                    bad = "ring of %d slots: delete_value applied %d times (indices %s)" % (size, len(seen), seen)
-                    break
-        except Unknown as ex:
-            ctx.broken.append("%s: destructor loop not executable (%s)" % (pat, ex))
-            continue
-        ctx.check(bad is None and bool(dels), rid, pat + "#all-slots", "every slot of the ring (sizes 1, 2, 5) is handed to delete_value exactly once",
-                  "%s: stored elements are leaked or destroyed twice when the queue is destroyed" % (bad or "no delete_value in the destructor"), fn.where(), fn=fn)
+                    def on_event(f, e, env, seen=seen):
+                        if e in dels:
+                            idx = [x for x in f.subtree(e) if f.nodes[x]["k"] == "ref" and f.nodes[x].get("dk") == "local" and f.nodes[x]["name"] in env]
+                            seen.append(tuple(env[f.nodes[x]["name"]] for x in idx))
+                    run_until(fn, {"this." + bound: size}, lambda f, e: False, on_event=on_event)
+                    if len(seen) != size or len(set(seen)) != size or any(len(t) == 0 or not all(0 <= v < size for v in t) for t in seen):
+                        bad = "%d slots: delete_value applied %d times (slot indices %s)" % (size, len(seen), [t[0] if t else "?" for t in seen])
+                        break
+            except Unknown as ex:
+                ctx.broken.append("%s: loop not executable (%s)" % (pat, ex))
+                continue
+            ctx.check(bad is None and bool(dels), rid, pat + "#all-slots", "every slot (1, 2, 5 slots) is handed to delete_value exactly once",
+                      "%s: stored elements are leaked or destroyed twice when the queue is destroyed" % (bad or "no delete_value"), fn.where(), fn=fn)
